@@ -2285,7 +2285,7 @@ class Side:
             f'{ind}\t\t"power" "{self.disp_power}"\n'
             f'{ind}\t\t"startposition" "[{self.disp_pos}]"\n'
             f'{ind}\t\t"flags" "{_DISP_COLL_TO_FLAG[self.disp_flags & DispFlag.COLL_ALL]}"\n'
-            f'{ind}\t\t"elevation" "{self.disp_elevation}"\n'
+            f'{ind}\t\t"elevation" "{format_float(self.disp_elevation)}"\n'
             f'{ind}\t\t"subdiv" "{"1" if DispFlag.SUBDIV in self.disp_flags else "0"}"\n'
         )
 
@@ -2331,8 +2331,8 @@ class Side:
         assert self._disp_verts is not None
         f.write(f'{ind}\t\t{name}\n{ind}\t\t{{\n')
         rows = [
-            str(getattr(vert, membr))
-            for vert in self._disp_verts
+            format_float(value) if isinstance(value, (int, float)) else str(value)
+            for value in (getattr(vert, membr) for vert in self._disp_verts)
         ]
         for y in range(size):
             f.write(f'{ind}\t\t"row{y}" "{" ".join(rows[size * y:size * (y+1)])}"\n')
